@@ -224,13 +224,18 @@ Definition ex_get : request :=
 Definition ex_302 : bytes :=
   s2b "HTTP/1.1 302 Found" ++ CRLF ++ s2b "location: /y" ++ CRLF ++ s2b "content-length: 0" ++ CRLF ++ CRLF.
 
-(** GET, 302 with Location, Redirect state, first [as_new_flow] (succeeds, takes the request). *)
+(** GET, 302 with Location, Redirect state, [as_new_flow], the new flow followed and redirected once more, Redirect
+    state of the second hop, first [as_new_flow] there (succeeds, takes the request). *)
 Definition ex_redirect : list op :=
-  [ONew ex_get; OProceed; OWriteHead 1000; OProceed; OSetStream ex_302; OArrive 1000; OTryResponse;
-   OProceed; OQStatus; OAsNewFlow Never].
+  [ONew ex_get; OProceed; OWriteHead 1000; OProceed; OSetStream (ex_302 ++ ex_302); OArrive 1000; OTryResponse;
+   OProceed; OQStatus; OAsNewFlow Never; OFollow; OProceed; OWriteHead 1000; OProceed; OTryResponse; OProceed;
+   OAsNewFlow Never].
 
 (** F18: after an admissible history, a second [as_new_flow] (in the Known class, inside the
-    quantifier otherwise) panics. *)
+    quantifier otherwise) panics -- on a flow that was itself created by following a redirect (the target URI
+    it carries still resolves, then the request that was already taken is taken again).  On a first-hop flow the
+    second call finds only the placeholder request, whose URI is not absolute, and reports BadLocationHeader
+    (since the repair of F19). *)
 Theorem c09_known_refuted :
   exists ops o,
     admissible s_init ops /\ in_quantifier (run_ops s_init ops) o /\ Known (run_ops s_init ops) o /\
